@@ -371,8 +371,14 @@ BODIES = [
     # signed normally, then gratuitous dash-escapes added to the body (RFC 4880 7.1 allows them on any line)
     ('dash-escaped', 'TIMESTAMP 2019-01-01T00:00:00Z\nDATA x 0\nIGNORE y\n', False),
     # signed with gpg --not-dash-escaped; the cleartext contains a line that LOOKS dash-escaped
+    # (the authenticated text is then not a Manifest: load must reject it, or at least never
+    # yield entries that differ from the authenticated text)
     ('not-dash-escaped', 'DATA a 0\n- DATA x 0\nIGNORE c\n', True),
+    # signed with gpg --not-dash-escaped, body is a valid Manifest taken literally
+    ('not-dash-escaped-plain', 'DATA a 0\nDATA x 0\nIGNORE c\n', True),
 ]
+# bases whose unmutated text must be accepted by load (the literal '- ' body is not a Manifest)
+MUST_ACCEPT_BASES = [b[0] for b in BODIES if b[0] != 'not-dash-escaped']
 HEADERS = ('Hash: SHA256', 'Comment: x', 'NotDashEscaped: yes')
 
 
@@ -613,7 +619,7 @@ def b_run(spec, tier, seed, stats):
         stats.counters['B_pairs'] += 1
         if out.startswith('load_ok/'):
             stats.counters['B_accepted'] += 1
-            if label == 'identity':
+            if label == 'identity' and name in MUST_ACCEPT_BASES:
                 stats.counters['B_identity_accepted'] += 1
         elif out.startswith('load_ok_unsigned'):
             stats.counters['B_loaded_unsigned'] += 1
@@ -625,7 +631,7 @@ def b_run(spec, tier, seed, stats):
             stats.dontcare['B: ' + out.split('dontcare:', 1)[1]] += 1
         else:
             stats.compared += 1
-        if (bi, label) in ((3, 'unesc:4'), (0, 'hdr:Hash@1')):
+        if (bi, label) in ((3, 'unesc:3'), (0, 'hdr:Hash@1')):
             stats.sample({'part': 'B', 'base': name, 'mutation': label, 'outcome': out, 'text': text})
         for sig, msg in viols:
             stats.violation(sig, {'part': 'B', 'text': text, 'label': label, 'meta': meta}, msg)
@@ -688,7 +694,7 @@ def finish(total, tier):
     errs = []
     c = total.counters
     L = tier_len(tier)
-    want_docs = 1 + sum(14 ** n * 2 - 14 ** (n - 1) for n in range(1, L + 1))
+    want_docs = 1 + sum(2 * ref.NCLASS ** n - ref.NCLASS ** (n - 1) for n in range(1, L + 1))
     if c['A_documents'] != want_docs:
         errs.append(f'Part A enumerated {c["A_documents"]} documents, the stated space has {want_docs}')
     for mode in MODES:
@@ -717,8 +723,8 @@ def finish(total, tier):
         errs.append('vacuity: Part B has no mutant accepted by load')
     if not c.get('B_rejected'):
         errs.append('vacuity: Part B has no mutant rejected by load')
-    if c.get('B_identity_accepted') != len(BODIES):
-        errs.append(f'vacuity: only {c.get("B_identity_accepted")} of {len(BODIES)} unmutated signed Manifests were accepted by load')
+    if c.get('B_identity_accepted') != len(MUST_ACCEPT_BASES):
+        errs.append(f'vacuity: only {c.get("B_identity_accepted")} of {len(MUST_ACCEPT_BASES)} unmutated signed Manifests were accepted by load')
     _atexit_cleanup()
     return errs
 
